@@ -10,30 +10,6 @@ set_option linter.unusedVariables false
 namespace GrVerif.Pass
 open GrVerif.Vm GrVerif.Seg GrVerif.Action GrVerif.Gen.Vm
 
-theorem ahead_chain {s : Seg} : ∀ (l : List Nat) (p : Option Nat) (fuel : Nat), Chain s none p l → l.length ≤ fuel →
-    ahead s fuel l.head? = l := by
-  intro l
-  induction l with
-  | nil => intro p fuel _ _; cases fuel <;> simp [ahead]
-  | cons i rest ih =>
-    intro p fuel hc hf
-    cases fuel with
-    | zero => simp at hf
-    | succ f =>
-      simp only [List.head?_cons, ahead]
-      obtain ⟨_, hn, hr⟩ := hc
-      rw [hn]
-      simp only [Option.or_none]
-      rw [ih (some i) f hr (by simp at hf; omega)]
-
-theorem ahead_stream {s : Seg} {l : List Nat} (h : Linked s l) : ahead s (2 * s.slots.size + 8) s.first = l := by
-  rw [h.first]
-  refine ahead_chain l none _ h.chain ?_
-  have hsub : l ⊆ List.range s.slots.size := fun j hj => List.mem_range.mpr (h.inb j hj)
-  have := List.Nodup.length_le_of_subset h.nodup hsub
-  simp at this
-  omega
-
 /-- `ls->sibling(s)` on a slot without a sibling -/
 theorem sibling_set (s : Seg) (a b : Nat) (fuel : Nat) (hab : a ≠ b) (hs : (s.get a).sibling = none) :
     (sibling s (fuel + 1) a (some b)).2 = s.upd a fun sl => sl.setSibling (some b) := by
